@@ -14,6 +14,8 @@ THEOREMS = [
     "Typedpy.C02.construct_reject", "Typedpy.C02.missing_required_is_TypeError",
     "Typedpy.C02.float_reads_float", "Typedpy.C02.boolean_reads_bool", "Typedpy.C02.enum_name_reads_member",
     "Typedpy.C02.immutableSet_reads_frozenset", "Typedpy.C02.decision_example",
+    "Typedpy.C02.fmtMatch_formatOracles", "Typedpy.C02.string_field_exact", "Typedpy.C02.ipv4_field_exact",
+    "Typedpy.C02.hostname_field_exact", "Typedpy.C02.sized_string_bound", "Typedpy.C02.format_example",
 ]
 RULE = ("classes from the type-directed declaration generator (depth <= 3/4, each constraint keyword p~0.35); "
         "per field: valid-by-construction kwargs, ALL boundary neighbours of every bound (enumerated), one value "
